@@ -1560,6 +1560,9 @@ class Engine(object):
 
         def after(s):
             s.ctl = outer
+            # ghost snapshot of the state in which the loop was left: at(_loop_exit, e) in ghost checkpoints after the loop
+            s.ghost = dict(s.ghost)
+            s.ghost['_loop_exit'] = SV(Ty('heap'), None, None, s.fork())
             k(s)
 
         def body_end(s):
